@@ -299,7 +299,10 @@ SessRules(s, e, d) ==
       ss  == SessOf(s, d)
       cont == e.cookie # 0 /\ ss.active /\ e.cookie = ss.last
   IN IF ~cont THEN <<>>
-     ELSE Fail(ns \cap ss.seen # {}, "C13:entry-returned-twice")
+     ELSE (* "exactly once" is promised for the entries that are there throughout; a name that was listed, then re-bound to    *)
+          (* another object (RENAME over it: the new entry may sit in a later slot) or removed and created again, is a new  *)
+          (* entry when it is listed again (choice 13). SessTrack takes such names out of `through`.                       *)
+          Fail(ns \cap ss.seen \cap ss.through # {}, "C13:entry-returned-twice")
           \o Fail(~(ns \subseteq (ss.ever \cup {".", ".."})), "C13:entry-never-in-directory")
           \o Fail(e.reof /\ ~((ss.through \cap Names(s.objs[d])) \subseteq (ss.seen \cup ns)), "C02,C13:entry-missed")
           \o Fail(ss.pages > Cardinality(ss.ever) + 4, "C13:enumeration-does-not-end")
